@@ -19,9 +19,27 @@ def sh(cmd, cwd=None, env=None, timeout=7200):
     return p.returncode, p.stdout.decode(errors="replace")
 
 
+def demo_tool(d):
+    """Compiler and extra flags for the demonstration: plain g++ -O1 unless the author's meta.json says the demo needs
+    clang++ (initialisation-order changes) or the sanitizers (undefined behaviour that has no visible effect otherwise)."""
+    cxx, extra = "g++", []
+    try:
+        cmd = json.load(open(os.path.join(d, "meta.json"))).get("demo_cmd", "")
+    except Exception:
+        cmd = ""
+    if not isinstance(cmd, str):
+        cmd = json.dumps(cmd)
+    if "clang++" in cmd and os.environ.get("MUT_DEMO_CXX", "") != "g++":
+        cxx = "clang++"
+    if "-fsanitize=" in cmd:
+        extra = ["-fsanitize=address,undefined", "-fno-sanitize-recover=all", "-D_GLIBCXX_ASSERTIONS"]
+    return cxx, extra
+
+
 def demo(wt, d, tag):
     exe = os.path.join(d, "demo_%s.bin" % tag)
-    rc, out = sh(["g++", "-std=c++17", "-O1", "-I", os.path.join(wt, "include"), os.path.join(d, "demo.cpp"), "-o", exe])
+    cxx, extra = demo_tool(d)
+    rc, out = sh([cxx, "-std=c++17", "-O1"] + extra + ["-I", os.path.join(wt, "include"), os.path.join(d, "demo.cpp"), "-o", exe])
     if rc != 0:
         return None, "demo does not compile: " + out[-800:]
     rc, out = sh([exe], timeout=600)
